@@ -328,9 +328,12 @@ def main() -> int:  # noqa: C901, PLR0912, PLR0915
     if agg["executions"] == 0 or not samples:
         print("HARNESS-ERROR: nothing explored")
         return 2
-    os.makedirs(os.path.join(ROOT, "evidence"), exist_ok=True)
-    with open(os.path.join(ROOT, "evidence", f"{prop}.json"), "w") as fh:
-        json.dump(evidence, fh, indent=1, default=repr)
+    if os.path.realpath(os.environ.get("HV_REPO", "/repo")) == os.path.realpath("/repo"):
+        # evidence describes /repo's working tree only; a run against a scratch copy (a seeded
+        # change under tools/seedcheck.py) leaves the evidence directory alone
+        os.makedirs(os.path.join(ROOT, "evidence"), exist_ok=True)
+        with open(os.path.join(ROOT, "evidence", f"{prop}.json"), "w") as fh:
+            json.dump(evidence, fh, indent=1, default=repr)
     for line in lines:
         print(line)
     print(
